@@ -344,6 +344,33 @@ def predictAvg [Add α] [Div α] [OfNat α 0] [OfCount α] (nan : α → Bool) (
 
 end holder
 
+/-! ### block-wise averaging (regression definition, seeded change S6-C09 -- NOT in /repo)
+
+  The seeded change reduced the per-sample predictions in blocks of 16 and returned the mean of the
+  block means.  `blockMean b xs` is that computation for one experiment (the list of the samples'
+  predictions for it); `Props/C09.lean` proves when it is the mean and refutes it on 17 samples. -/
+
+section blockmean
+variable {α : Type}
+
+/-- the first `q` consecutive blocks of size `b` -/
+def chunksN : Nat → Nat → List α → List (List α)
+  | 0, _, _ => []
+  | q + 1, b, xs => xs.take b :: chunksN q b (xs.drop b)
+
+/-- consecutive blocks of size `b` (the last one may be shorter): `ceil (len / b)` of them -/
+def chunks (b : Nat) (xs : List α) : List (List α) := chunksN ((xs.length + b - 1) / b) b xs
+
+variable [Add α] [Div α] [OfNat α 0] [OfCount α]
+
+/-- the arithmetic mean, as `sum / count` -/
+def meanL (xs : List α) : α := sumL xs / OfCount.ofCount xs.length
+
+/-- the mean of the block means -/
+def blockMean (b : Nat) (xs : List α) : α := meanL ((chunks b xs).map meanL)
+
+end blockmean
+
 /-! ### the `Theta` methods: dispatch on the screen's arity -/
 
 /-- what the prediction methods read from a screen: arity, sample ids, treatment-id rows -/
